@@ -1,6 +1,8 @@
 mod canon;
 mod gen1;
 mod ops1;
+mod ops2;
+mod gen2;
 mod rng;
 
 use std::io::{BufRead, Write};
@@ -22,6 +24,15 @@ pub fn run_op(lhs: &str) -> String {
             "plan" => ops1::op_plan(args),
             "rplan" => ops1::op_rplan(args),
             "pplan" => ops1::op_pplan(args),
+            "ob" => ops2::op_ob(args),
+            "enc" => ops2::op_enc(args),
+            "dec" => ops2::op_dec(args),
+            "decr" => ops2::op_decr(args),
+            "encx" => ops2::op_encx(args),
+            "decx" => ops2::op_decx(args),
+            "baocmp" => ops2::op_baocmp(args),
+            "obpre" => ops2::op_obpre(args),
+            "enc2" => ops2::op_enc2(args),
             _ => format!("unknown-op {op}"),
         }
     })
@@ -42,6 +53,7 @@ fn main() {
             let shards: usize = args.get(6).map(|s| s.parse().unwrap()).unwrap_or(1);
             let mut cases: Vec<String> = Vec::new();
             gen1::gen(prop, tier, seed, &mut cases);
+            gen2::gen(prop, tier, seed, &mut cases);
             for (i, lhs) in cases.into_iter().enumerate() {
                 if i % shards != sidx {
                     continue;
